@@ -1,0 +1,11 @@
+//go:build verif
+
+package ntske
+
+// Verification hooks for property C20 (read-only views of unexported state).
+
+// VerifC20Data returns a copy of the fetcher's cached key exchange data.
+func (f *Fetcher) VerifC20Data() Data { return f.data }
+
+// VerifC20ALPN is the application protocol the client offers.
+const VerifC20ALPN = alpn
